@@ -316,7 +316,8 @@ theorem idle_when_at_rest (k : KState)
     (h14 : k.macroOnPressCancelDuration = 0) (h15 : k.capsWord = none) (h16 : k.vkeysPendingRelease = [])
     (h17 : k.waitingForIdle = []) (h18 : k.liveReloadRequested = false)
     (h19 : ∀ s ∈ k.layout.states, match s with | .seqCustomPending _ | .seqCustomActive _ => False | _ => True)
-    (h20 : k.seq.st.active = false) :
+    (h20 : k.seq.st.active = false)
+    (h21 : k.dyn.rep = none) :     -- [dyn] no dynamic macro replay in progress
     isIdle k = true := by
   have hst : (k.layout.states.any fun s => match s with
       | .seqCustomPending _ | .seqCustomActive _ => true
@@ -326,7 +327,7 @@ theorem idle_when_at_rest (k : KState)
     intro s hs
     have := h19 s hs
     cases s <;> simp_all
-  simp only [isIdle, h1, h2, h3, h4, h5, h6, h7, h8, h9, h10, h11, h12, h13, h14, h15, h16, h17, h18, h20]
+  simp only [isIdle, isIdleBase, h1, h2, h3, h4, h5, h6, h7, h8, h9, h10, h11, h12, h13, h14, h15, h16, h17, h18, h20, h21]
   simp
   intro x hx
   have := h19 x hx
@@ -366,12 +367,13 @@ further tick changes nothing in it (C07 `layout_tick_silent_when_quiet`) and `is
 theorem at_rest_released_and_idle (k : KState) (h : Quiesce.LayoutAtRest k.layout)
     (h10 : k.scroll = none) (h11 : k.hscroll = none) (h12 : k.moveV = none) (h13 : k.moveH = none)
     (h14 : k.macroOnPressCancelDuration = 0) (h15 : k.capsWord = none) (h16 : k.vkeysPendingRelease = [])
-    (h17 : k.waitingForIdle = []) (h18 : k.liveReloadRequested = false) (h20 : k.seq.st.active = false) :
+    (h17 : k.waitingForIdle = []) (h18 : k.liveReloadRequested = false) (h20 : k.seq.st.active = false)
+    (h21 : k.dyn.rep = none) :
     k.layout.keycodes = [] ∧ C07.QuietLayout k.layout ∧ isIdle k = true := by
   refine ⟨by simp [Layout.keycodes, h.states], ⟨h.queue, h.waiting, h.extra, h.osh, h.pause, h.seqs, h.tde, h.aq, ?_⟩, ?_⟩
   · intro st hst; rw [h.states] at hst; cases hst
   · exact idle_when_at_rest k h.queue h.waiting h.extra h.lpt h.osh h.pause h.seqs h.tde h.aq h10 h11 h12 h13
-      h14 h15 h16 h17 h18 (fun st hst => by rw [h.states] at hst; cases hst) h20
+      h14 h15 h16 h17 h18 (fun st hst => by rw [h.states] at hst; cases hst) h20 h21
 
 /-! ### Quiescence on the one-shot fragment of C06 -/
 
